@@ -46,7 +46,7 @@ def split_project(rng, roots):
             d = docgen.node_to_D(N(n.text, [], n.explicit))
             d.explicit = False
             head = layout.render([d], layout.Layout(random.Random(0)))[0]
-            out.extend(b"".join(b" " * indent + l + b"\n" for l in head.split(b"\n")[:-1]))
+            out.extend(b"".join((b" " * indent + l if l.strip() else l) + b"\n" for l in head.split(b"\n")[:-1]))   # blank lines stay blank
             if n.explicit:
                 out.extend(b" " * indent + b"(\n")
             out.extend(emit(n.children, depth + 1, prefix, indent + 2))
